@@ -35,6 +35,8 @@ type pkgT struct {
 	Provides  []string `json:"p,omitempty"`
 	InstallIf []string `json:"i,omitempty"`
 	Prio      uint64   `json:"prio,omitempty"`
+	// the A: field of the index entry says "noarch" (availability is still per index: the model has no such field)
+	Noarch bool `json:"noarch,omitempty"`
 }
 
 func galPkg(p pkgT, pin, uri string) string {
